@@ -19,6 +19,11 @@ type autoInv struct {
 // loopHeader cuts a loop at its header: check invariants on entry, havoc, assume invariants.
 func (e *Engine) loopHeader(f *frame, li *loopInfo, b *ssa.BasicBlock, phis []*ssa.Phi, st *State) {
 	c := e.C
+	if li.mods == nil {
+		li.mods = e.W.loopModSet(f.fn, li)
+	}
+	// the header state before the havoc serves pure re-evaluation of invariant loads (their families are untouched)
+	f.headEnv[b] = st.clone()
 	autos := e.autoInvariants(f, li, b, phis)
 	var written []*Clause
 	if f.ct != nil {
@@ -33,11 +38,11 @@ func (e *Engine) loopHeader(f *frame, li *loopInfo, b *ssa.BasicBlock, phis []*s
 		e.oblige(st, "auto-inv-init", fmt.Sprintf("loop%d.%s", li.ordinal, a.label), a.build(phiVals), posOfBlock(e, b), "auto invariant holds on loop entry")
 	}
 	for i, cl := range written {
-		t := e.evalClause(f, cl, st, nil)
+		t := e.evalClause(f, cl, st, nil, b)
 		e.oblige(st, "inv-init", fmt.Sprintf("loop%d.%s", li.ordinal, clauseLabel(cl, i)), t, posOfBlock(e, b), "invariant holds on loop entry: "+cl.Text)
 	}
 	// havoc
-	ms := e.W.loopModSet(f.fn, li)
+	ms := li.mods
 	e.havocFamilies(st, ms.list())
 	na := c.Fresh("alloc.loop", smt.Int)
 	e.assume(st, c.Op(">=", smt.Bool, na, st.Alloc))
@@ -61,7 +66,7 @@ func (e *Engine) loopHeader(f *frame, li *loopInfo, b *ssa.BasicBlock, phis []*s
 		e.assume(st, a.build(phiVals))
 	}
 	for _, cl := range written {
-		e.assume(st, e.evalClause(f, cl, st, nil))
+		e.assume(st, e.evalClause(f, cl, st, nil, b))
 	}
 	if f.top || true {
 		f.autos = appendAutos(f.autos, b, autos)
@@ -117,14 +122,14 @@ func (e *Engine) loopBackEdge(f *frame, li *loopInfo, latch, header *ssa.BasicBl
 	}
 	if f.ct != nil {
 		for i, cl := range f.ct.Invariants[li.ordinal] {
-			t := e.evalClause(f, cl, bs, override)
+			t := e.evalClause(f, cl, bs, override, header)
 			e.oblige(bs, "inv-step", fmt.Sprintf("loop%d.%s", li.ordinal, clauseLabel(cl, i)), t, posOfBlock(e, latch), "invariant preserved: "+cl.Text)
 		}
 		// termination measure
 		if dc := f.ct.Decreases[li.ordinal]; dc != nil {
 			head := f.headEnv[header]
-			before := e.evalMeasure(f, dc, head, nil)
-			after := e.evalMeasure(f, dc, bs, override)
+			before := e.evalMeasure(f, dc, head, nil, header)
+			after := e.evalMeasure(f, dc, bs, override, header)
 			c := e.C
 			w := before.Sort.Width()
 			ok := c.And(c.Op("bvslt", smt.Bool, after, before), c.Op("bvsle", smt.Bool, c.BVLit64(0, w), before))
@@ -229,7 +234,7 @@ func (e *Engine) autoInvariants(f *frame, li *loopInfo, header *ssa.BasicBlock, 
 				continue
 			}
 			// bound must be loop-invariant
-			if !loopInvariant(li, cmp.Y, 3) {
+			if !loopInvariant(li, cmp.Y, 5) {
 				continue
 			}
 			bound = cmp.Y
@@ -335,6 +340,18 @@ func loopInvariant(li *loopInfo, v ssa.Value, depth int) bool {
 		return false
 	}
 	switch x := v.(type) {
+	case *ssa.UnOp:
+		// a load is invariant when its address is and the loop writes nothing of that heap family
+		if x.Op != token.MUL || li.mods == nil || li.mods.all {
+			return false
+		}
+		fam, ok := storeFamily(x.X, true)
+		if !ok || li.mods.fams[fam] {
+			return false
+		}
+		return loopInvariant(li, x.X, depth-1)
+	case *ssa.FieldAddr:
+		return loopInvariant(li, x.X, depth-1)
 	case *ssa.Convert:
 		return loopInvariant(li, x.X, depth-1)
 	case *ssa.BinOp:
@@ -367,6 +384,19 @@ func (e *Engine) pureEval(f *frame, li *loopInfo, v ssa.Value) Val {
 	case *ssa.Call:
 		a := e.pureEval(f, li, x.Call.Args[0])
 		return Val{Typ: x.Type(), Terms: []*smt.Term{a.Terms[2]}}
+	case *ssa.UnOp:
+		p := e.pureEval(f, li, x.X)
+		e.noAssume++
+		defer func() { e.noAssume-- }()
+		return e.load(f.headEnv[li.header].clone(), p, x.Type())
+	case *ssa.FieldAddr:
+		p := e.pureEval(f, li, x.X)
+		st0 := types.Unalias(x.X.Type()).Underlying().(*types.Pointer).Elem()
+		off, n := e.fieldRange(st0, x.Field)
+		np := *p.Ptr
+		np.Off += off
+		np.N = n
+		return Val{Typ: x.Type(), Terms: p.Terms, Ptr: &np}
 	}
 	panic("pureEval")
 }
